@@ -1,7 +1,7 @@
 """C19 — the derivative checker accepts correct derivatives and pinpoints wrong ones."""
 from ..gen import Gen
 from ..unit import run_unit
-from ..units.derivcheck import DerivCheckUnit
+from ..units.derivcheck import DerivCheckUnit, wide_oracle
 
 PROP_FILES = ["props/C19.v"]
 TECHNIQUE = "Coq proof + exact differential correspondence"
@@ -11,3 +11,4 @@ def run(rep, tier, seed, scratch):
     g = Gen(seed)
     u = DerivCheckUnit()
     run_unit(rep, u, u.gen(g, tier), scratch)
+    wide_oracle(rep, tier, seed)
